@@ -99,3 +99,9 @@ func init() {
 		Rule: "one case = (graph shape and size chosen around the scaled buffer capacities, or a small random graph; a loop-free program from templates with fan-out/limit/range/distinct/aggregate or from the typed generator; capacity divisor; cancellation point; scheduling policy with slow-stage/slow-consumer emphasis + schedule seed); non-trivial = the program compiled and at least one row flowed; distinct = distinct (shape, size, program, divisor, cancel point, decision-sequence hash)",
 		Assumptions: []string{"the gRPC handler keeps draining the result channel after a cancel (server/api.go:Traversal does)", "a deadlock found with scaled-down capacities is only reported after it reproduced at the production constants with the workload scaled up by the same factor", "simkv implements the kvi contract (snapshot views, atomic top-level writes)"}}
 }
+
+func init() {
+	props["C12"] = &propCfg{Level: "exploration", QuickRuns: 6000, QuickS: 50, ThoroughRuns: 600000, ThoroughS: 1500, Race: true,
+		Rule: "one case = (small graph with cycles/self loops/dead ends, a mark/jump program of one of six documented shapes with a counter bounding the depth, optional limit after the loop, capacity divisor, scheduling policy with starve-one aimed at a seeded goroutine + schedule seed, clock advance cadence); non-trivial = the reference result is non-empty; distinct = distinct (graph, program, divisor, decision-sequence hash)",
+		Assumptions: []string{"loop bodies contain traveler-local, order-preserving steps only (as the property states)", "emit=false is generated only with no condition, where documentation and code cannot differ", "livelock is reported only under the fair policy after 1000 progress-free rounds with the clock advancing"}}
+}
